@@ -5,26 +5,34 @@ import WK.Proofs.C17_lists
 -/
 namespace WK.C17
 
+/-- the seven commands that mutate a task row together with the channel's metadata row -/
+def Kind.isTaskMeta : Kind → Bool
+  | .setfence | .resetfence | .commit | .addlearner | .promote | .clearfence | .abort => true
+  | _ => false
+
 /-- the writes of the one closure that a single command `c` commits, relative to the committed store -/
 inductive OneOp (db : State) (c : Cmd) : List W → Prop
   | nothing : OneOp db c []
-  | create (ws : List W) : db.task? c.task.chan c.task.id = none → upsertWrites db c.task = .ok ws → OneOp db c ws
-  | taskOnly (t nt : Task) (ws : List W) :
+  | create (ws : List W) : (c.kind = .create ∨ c.kind = .createg) →
+      db.task? c.task.chan c.task.id = none → upsertWrites db c.task = .ok ws → OneOp db c ws
+  | taskOnly (t nt : Task) (ws : List W) : (c.kind = .claim ∨ c.kind = .advance) →
       db.task? c.g.chan c.g.id = some t → c.g.matches t = true → mutTaskOnly c t = .ok nt →
       upsertWrites db nt = .ok ws → OneOp db c ws
-  | taskMeta (t nt : Task) (m nm0 : Meta) (ws : List W) :
+  | taskMeta (t nt : Task) (m nm0 : Meta) (ws : List W) : c.kind.isTaskMeta = true →
       db.task? c.g.chan c.g.id = some t → db.meta? c.rg.chan = some m →
       mutate c t m = .ok (nt, nm0) → c.g.matches t = true → c.rg.matches m = true →
       (t.terminal = true → t = nt) → validTask nt = true →
       validMeta (bumpRoute m (normMeta nm0)) = true →
       upsertWrites db nt = .ok ws →
       OneOp db c (ws ++ [W.putMeta c.rg.chan (normMeta (bumpRoute m (normMeta nm0)))])
-  | gc : OneOp db c (gcWrites db c.before c.limit)
+  | gc : c.kind = .gc → OneOp db c (gcWrites db c.before c.limit)
 
 /-- the closures command `c` can queue -/
 def OpOf (c : Cmd) (op : Staged) : Prop :=
-  op = Staged.createRow c.task ∨ op = Staged.guardCreate c.task c.rg ∨ op = Staged.taskOnly c ∨
-  op = Staged.taskMeta c ∨ op = Staged.gc c.before c.limit
+  ((c.kind = .create ∨ c.kind = .createg) ∧ op = Staged.createRow c.task) ∨
+  ((c.kind = .claim ∨ c.kind = .advance) ∧ op = Staged.taskOnly c) ∨
+  (c.kind.isTaskMeta = true ∧ op = Staged.taskMeta c) ∨
+  (c.kind = .gc ∧ op = Staged.gc c.before c.limit)
 
 theorem ov_empty_task (db : State) (c i : Nat) : ({} : Ov).task? db c i = db.task? c i := by
   simp [Ov.task?]
@@ -47,7 +55,7 @@ theorem runStaged_guard (db : State) (o o' : Ov) (t : Task) (rg : RtGuard) (ws :
 
 theorem runStaged_oneOp (db : State) (c : Cmd) (op : Staged) (hop : OpOf c op) (o' : Ov) (ws : List W)
     (h : runStaged db {} op = .ok (o', ws)) : OneOp db c ws := by
-  rcases hop with rfl | rfl | rfl | rfl | rfl
+  rcases hop with ⟨hk, rfl⟩ | ⟨hk, rfl⟩ | ⟨hk, rfl⟩ | ⟨hk, rfl⟩
   · simp only [runStaged, ov_empty_task] at h
     split at h
     · split at h
@@ -57,9 +65,7 @@ theorem runStaged_oneOp (db : State) (c : Cmd) (op : Staged) (hop : OpOf c op) (
       split at h
       · simp at h
       · rename_i ws' hw
-        simp at h; rw [← h.2]; exact .create ws' hnone hw
-  · have := runStaged_guard db {} o' c.task c.rg ws h
-    rw [this.2]; exact .nothing
+        simp at h; rw [← h.2]; exact .create ws' hk hnone hw
   · simp only [runStaged, ov_empty_task] at h
     split at h
     · simp at h
@@ -72,7 +78,7 @@ theorem runStaged_oneOp (db : State) (c : Cmd) (op : Staged) (hop : OpOf c op) (
         · split at h
           · simp at h
           · rename_i _ nt hmut _ ws' hw
-            simp at h hg; rw [← h.2]; exact .taskOnly t nt ws' ht hg hmut hw
+            simp at h hg; rw [← h.2]; exact .taskOnly t nt ws' hk ht hg hmut hw
   · simp only [runStaged, ov_empty_task, ov_empty_meta] at h
     split at h
     · simp at h
@@ -103,9 +109,9 @@ theorem runStaged_oneOp (db : State) (c : Cmd) (op : Staged) (hop : OpOf c op) (
                     simp at h
                     rw [← h.2]
                     simp at hg hv hvt hterm
-                    exact .taskMeta t nt m nm0 ws' ht hm hmut hg.1 hg.2 hterm hvt hv hw
+                    exact .taskMeta t nt m nm0 ws' hk ht hm hmut hg.1 hg.2 hterm hvt hv hw
   · simp [runStaged] at h
-    rw [← h.2]; exact .gc
+    rw [← h.2]; exact .gc hk
 
 theorem stageCreate_fresh (s0 : List Staged) (t : Task) (wb' : WB)
     (h : stageCreate { staged := s0 } t = .ok wb') : wb'.staged = s0 ++ [Staged.createRow t] := by
@@ -128,7 +134,7 @@ theorem stageCmd_shape (c : Cmd) :
     split
     · rename_i wb' h
       have := stageCreate_fresh [] c.task wb' h
-      right; left; exact ⟨_, Or.inl rfl, by simpa using this⟩
+      right; left; exact ⟨_, Or.inl ⟨Or.inl hk, rfl⟩, by simpa using this⟩
     · left; rfl
   case createg =>
     simp only
@@ -137,26 +143,26 @@ theorem stageCmd_shape (c : Cmd) :
     · split
       · rename_i wb' h
         have := stageCreate_fresh [Staged.guardCreate c.task c.rg] c.task wb' (by simpa using h)
-        right; right; left; exact ⟨_, Or.inl rfl, by simpa using this⟩
+        right; right; left; exact ⟨_, Or.inl ⟨Or.inr hk, rfl⟩, by simpa using this⟩
       · right; right; right; rfl
   case gc =>
     simp only
     split
     · left; rfl
-    · right; left; exact ⟨_, Or.inr (Or.inr (Or.inr (Or.inr rfl))), rfl⟩
+    · right; left; exact ⟨_, Or.inr (Or.inr (Or.inr ⟨hk, rfl⟩)), rfl⟩
   case claim =>
     simp only
     split
     · left; rfl
-    · right; left; exact ⟨_, Or.inr (Or.inr (Or.inl rfl)), rfl⟩
+    · right; left; exact ⟨_, Or.inr (Or.inl ⟨Or.inl hk, rfl⟩), rfl⟩
   case advance =>
     simp only
-    right; left; exact ⟨_, Or.inr (Or.inr (Or.inl rfl)), rfl⟩
+    right; left; exact ⟨_, Or.inr (Or.inl ⟨Or.inr hk, rfl⟩), rfl⟩
   all_goals
     simp only
     split
     · left; rfl
-    · right; left; exact ⟨_, Or.inr (Or.inr (Or.inr (Or.inl rfl))), rfl⟩
+    · right; left; exact ⟨_, Or.inr (Or.inr (Or.inl ⟨by rw [hk]; rfl, rfl⟩)), rfl⟩
 
 theorem commitStaged_single (db : State) (c : Cmd) (ops : List Staged) (ws : List W)
     (hs : ops = [] ∨ (∃ op, OpOf c op ∧ ops = [op]) ∨ (∃ op, OpOf c op ∧ ops = [Staged.guardCreate c.task c.rg, op]) ∨
